@@ -22,12 +22,14 @@
 (*                        changes, nothing else - an unnamed object keeps  *)
 (*                        the name it has (the id it was born with)        *)
 (***************************************************************************)
-EXTENDS OdmlWorld
+EXTENDS OdmlWorld, Integers
 
 \* ---- helpers producing new worlds ----
 Without(s, x) == SelectSeq(s, LAMBDA y : y # x)
 InsertAt(s, i, x) == SubSeq(s, 1, i) \o <<x>> \o SubSeq(s, i + 1, Len(s))     \* i in 0..Len(s)
 Min(a, b) == IF a < b THEN a ELSE b
+\* position an index of the list-insert kind designates in a list of n elements (negative: from the end; clamped)
+Pos(i, n) == IF i >= 0 THEN Min(i, n) ELSE (IF n + i > 0 THEN n + i ELSE 0)
 Detach(w, x) ==
    IF w.par[x] = NONE THEN w
    ELSE LET c == w.par[x] IN
@@ -100,7 +102,7 @@ Post(w, op) ==
     [] op.name = "reorder" ->
          IF w.kind[op.x] = "doc" \/ w.par[op.x] = NONE THEN Refuse(w)
          ELSE LET c == w.par[op.x] IN LET w1 == Detach(w, op.x) IN
-              Ok(AttachAt(w1, c, Min(op.i, LenOf(w1, c, op.x)), op.x))
+              Ok(AttachAt(w1, c, Pos(op.i, LenOf(w1, c, op.x)), op.x))
     [] op.name = "rename" ->
          IF w.kind[op.x] = "doc" THEN Refuse(w)
          \* clearing the name makes the current id the name: token "#x" unless the observation says which id x
